@@ -2,7 +2,7 @@
    Nothing here mentions a generated definition; compiled with the scripts in the scratch build directory. *)
 From Coq Require Import List NArith ZArith QArith Bool Lia Lqa.
 Import ListNotations.
-From FP Require Import Lin Blocks BlocksProofs PathEnc PathEncProofs PyRt PyLin.
+From FP Require Import Lin Blocks BlocksProofs PathEnc PathEncProofs PathEncGiven PyRt PyLin.
 Local Open Scope Q_scope.
 
 (* a loop whose body emits rows: what the rows emitted so far say, iteration by iteration.  J: what stays true of the state. *)
@@ -115,3 +115,50 @@ Proof.
   - destruct (PathEnc.edge_eqb e' e); [reflexivity | exact IH].
   - unfold PathEnc.edge_eqb, PyRt.edge_eqb, py_pair_eqb. rewrite (N.eqb_sym (fst e')), (N.eqb_sym (snd e')). reflexivity.
 Qed.
+
+(* ---------------------------------------------------------------- error models (kLeastAbsErrors / kMinPathError) *)
+(* edge_indexes_basic = [(u, v) for (u, v) in G.edges() if (u, v) not in edges_to_ignore] *)
+Lemma filter_basic : forall ign (l : list (N * N)),
+  map (fun '(c0, c1) => (c0, c1)) (filter (fun '(c0, c1) => negb (py_mem PyRt.edge_eqb (c0, c1) ign)) l) = filter (fun e => negb (mem_edge e ign)) l.
+Proof.
+  intros ign l. induction l as [|[u v] l IH]; [reflexivity|]. cbn [filter]. rewrite mem_edge_py_mem.
+  destruct (mem_edge (u, v) ign); cbn [negb map]; [exact IH | rewrite IH; reflexivity].
+Qed.
+Lemma filter_basic_id : forall ign (l : list (N * N)),
+  map (fun c0 => c0) (filter (fun c0 => negb (py_mem PyRt.edge_eqb c0 ign)) l) = filter (fun e => negb (mem_edge e ign)) l.
+Proof. intros ign l. rewrite map_id. apply filter_ext. intro e. rewrite mem_edge_py_mem. reflexivity. Qed.
+Lemma vkeyE_Err : forall u v, V fErr (vkeyE (u, v)) = V fErr [u; v].
+Proof. reflexivity. Qed.
+Lemma py_mem_edge_in : forall (e : N * N) l, In e l -> negb (py_mem PyRt.edge_eqb e l) = false.
+Proof. intros e l H. apply negb_false_iff. apply PyRt.py_mem_edge_In. exact H. Qed.
+Lemma pidx_mem_ : forall k i, In i (py_range (Z.of_nat k)) -> negb (py_mem Z.eqb i (map (fun c : Z => c) (py_range (Z.of_nat k)))) = false.
+Proof. intros. apply negb_false_iff. apply (py_mem_In _ Z.eqb Z.eqb_eq). rewrite map_id. assumption. Qed.
+Lemma range_nonempty : forall k, (1 <= k)%nat -> py_list_is_empty (py_range (Z.of_nat k)) = false.
+Proof. intros k H. rewrite py_range_of_nat. destruct k; [lia | reflexivity]. Qed.
+
+(* ---------------------------------------------------------------- given weights (solution_weights_superset) *)
+Lemma sumq_zipn : forall (g : N -> Q -> Q) (ws : list Q) s,
+  sumq (fun iw => g (fst iw) (snd iw)) (zipn s ws) == sumq (fun j => g (N.of_nat (s + j)) (nth j ws 0)) (seq 0 (length ws)).
+Proof.
+  intros g ws; induction ws as [|w ws IH]; intro s; cbn [zipn sumq length seq fst snd nth]; [reflexivity|].
+  rewrite IH, Nat.add_0_r, <- seq_shift, sumq_map. apply Qplus_comp; [reflexivity|]. apply sumq_ext. intros j _. replace (S s + j)%nat with (s + S j)%nat by lia. reflexivity.
+Qed.
+Lemma sumq_flat_map : forall (A B : Type) (g : B -> Q) (f : A -> list B) l, sumq g (flat_map f l) == sumq (fun x => sumq g (f x)) l.
+Proof. intros A B g f l; induction l as [|x l IH]; cbn [flat_map sumq]; [reflexivity | rewrite sumq_app, IH; reflexivity]. Qed.
+Lemma list_get_nat : forall (l : list Q) j, py_list_get 0 l (Z.of_nat j) = nth j l 0.
+Proof. intros; unfold py_list_get. destruct (Z.of_nat j <? 0)%Z eqn:E; [apply Z.ltb_lt in E; lia|]. rewrite Nat2Z.id. reflexivity. Qed.
+(* sum over all source edges and layers, whichever of the two is the outer loop *)
+Lemma src_out_eval : forall G k a,
+  eval a (src_out_terms G k) == sumq (fun i => sumq (fun v => a (V fEdge (vkey3 (PathEnc.g_src G, v, i)))) (succs G (PathEnc.g_src G))) (py_range (Z.of_nat k)).
+Proof.
+  intros G k a. unfold src_out_terms. rewrite eval_flat_map.
+  rewrite (sumq_ext _ (fun v => sumq (fun i => a (V fEdge (vkey3 (PathEnc.g_src G, v, i)))) (py_range (Z.of_nat k)))).
+  - apply sumq_swap.
+  - intros v _. rewrite (eval_map_const a (fun i => Edge (PathEnc.g_src G) v i) 1).
+    rewrite (sumq_range_layers (fun i => a (V fEdge (vkey3 (PathEnc.g_src G, v, i)))) (fun i => a (Edge (PathEnc.g_src G) v i)) k); [ring | intro j; rewrite vkey3_Edge; reflexivity].
+Qed.
+
+Lemma vkey1_Slack : forall j, V fSlack (vkey1 (Z.of_nat j)) = V fSlack [N.of_nat j].
+Proof. intros; unfold vkey1. rewrite <- nat_N_Z, N2Z.id. reflexivity. Qed.
+Lemma vkey3_Gamma : forall u v j, V fGamma (vkey3 (u, v, Z.of_nat j)) = V fGamma [u; v; N.of_nat j].
+Proof. intros; unfold vkey3; cbn [fst snd]. rewrite <- nat_N_Z, N2Z.id. reflexivity. Qed.
